@@ -287,7 +287,7 @@ def judge_parallel(ctx, jobs):
         res = pf_common.coq_judge(ctx, name, IMPORTS, defs, timeout=1500)
         return name, (sum(res, []) if res is not None else None)
     out = {}
-    with concurrent.futures.ThreadPoolExecutor(max_workers=8) as ex:
+    with concurrent.futures.ThreadPoolExecutor(max_workers=8 if ctx.quick else 12) as ex:
         for name, res in ex.map(one, jobs):
             out[name] = res
     return out
@@ -297,9 +297,9 @@ def run(ctx):
     ctx.prove(models=['Model/C43Check.v', 'Base/Corr.v'])
     exe = dv.build_harness('h_cpuset', ['h_cpuset.cpp'])
     r = ctx.rng
-    nops = 300 if ctx.quick else 6000
-    nstr = 900 if ctx.quick else 12000
-    ngrp = 300 if ctx.quick else 5000
+    nops = 350 if ctx.quick else 3000
+    nstr = 900 if ctx.quick else 6000
+    ngrp = 300 if ctx.quick else 2500
     maxlen = 4 if ctx.quick else 5
 
     ops = gen_ops(r, nops)
@@ -312,7 +312,7 @@ def run(ctx):
             for b in ALPHA:
                 buckets.append(([a, b], L - 2))
     if not ctx.quick:      # a sample of length-6 buckets on top of the exhaustive lengths
-        for _ in range(120):
+        for _ in range(60):
             buckets.append(([r.choice(ALPHA), r.choice(ALPHA), r.choice(ALPHA)], 3))
     lines = [ops_line(o) for o in ops] + ['parse %d %s' % (len(s), ' '.join(map(str, s))) for s in strs] + \
             ['ex %d %s %d' % (len(p), ' '.join(map(str, p)), n) for p, n in buckets] + [grp_line(c) for c in topos]
@@ -478,7 +478,7 @@ def run(ctx):
                        'exhaustive: ALL strings over {0-9 , - space} of length <= %d (%d strings%s) compared per bucket through a digest of the cpu_set_t words; '
                        'topologies: SMT 1..8 x consecutive/interleaved numbering x L3 none/all/blocks/partial/overlapping/non-nested x shuffled, empty, duplicated, '
                        'unrepresentable L2 entries x maxGroupSize in {INT_MIN,-1,0,1..64,INT_MAX, around the largest L2} -- non-trivial = more than one group'
-                       % (maxlen, sum(13 ** k for k in range(maxlen + 1)), '' if ctx.quick else ' + 120 random length-6 buckets'))
+                       % (maxlen, sum(13 ** k for k in range(maxlen + 1)), '' if ctx.quick else ' + 60 random length-6 buckets'))
     names = {0: 'agree_and_property_holds', 1: 'differs_but_property_holds', 2: 'property_fails', 4: 'property_fails_in_known_domain(list_lossy)'}
     ctx.cov['verdict_histogram'] = {k: {names.get(v, str(v)): c for v, c in h.items()} for k, h in hist.items()}
     ctx.cov['traces_validated_against_impl'] += sum(h.get(0, 0) for h in hist.values())
